@@ -143,7 +143,7 @@ var sharedRules = map[string][]share{
 	"C16": {sh("C04", "C04.R4", "C16.S1", "case-insensitive fields are stored and indexed un-normalised when a published schema lacks its transformer list")},
 	"C07": {sh("C08", "C08.R3", "C07.S1", "validate-all then insert-all is atomic only if both loops run in one critical section: a writer admitted in between makes the insert loop fail half-way")},
 	"C08": {sh("C10", "C10.R5", "C08.S1", "the flusher's closed-handle test and its flush must be one critical section, otherwise the flush can run after a concurrent Close/Drop returned (check-then-act)")},
-	"C12": {sh("C01", "C01.R2", "C12.S1", "under every cache / async valuation a delete evicts what that valuation caches, otherwise Exist/Get answers depend on the configuration")},
+	"C12": {sh("C01", "C01.R7", "C12.S2", "the indexed search reports an unreadable object when its result is collected: the scan of an unindexed field has to report it too, not stop silently"), sh("C01", "C01.R2", "C12.S1", "under every cache / async valuation a delete evicts what that valuation caches, otherwise Exist/Get answers depend on the configuration")},
 	"C09": {sh("C13", "C13.R6", "C09.S1", "the bulk delete holds the handle write lock while it drains an iterator and continues after read errors: an iterator that does not advance on an error never reaches the end, the call never returns and every other call blocks")},
 	"C13": {sh("C02", "C02.R5", "C13.S1", "result order is the order of the live field index: a write through a result slice aliasing it re-orders or drops entries")},
 	"C17": {sh("C10", "C10.R8", "C17.S1", "re-creating a collection with the settings it already has must leave it working: a copied 'started' flag leaves the replaced settings without flusher")},
@@ -152,6 +152,7 @@ var sharedRules = map[string][]share{
 		sh("C17", "C17.R2", "C19.S1", "the index panics recorded as known findings are unreachable only for an index that passed the control: a schema published after a failed control reaches them"),
 		sh("C02", "C02.R4", "C19.S3", "the comparators assert the dynamic type of both operands without a check: the class guard is what turns a mistyped search value into ErrCasting instead of a panic"),
 		sh("C11", "C11.R7", "C19.S4", "a structurally wrong schema.json (reordered or missing index entries) must be refused on every call, not published under the repairable class: the field-index deletion panics on such an index"),
+		sh("C01", "C01.R7", "C19.S5", "a search that could not read an object must report it, not return the objects found so far"),
 		sh("C11", "C11.R3", "C19.S2", "a schema whose load failed with a plain error must not stay in the table, later calls would work on an index that failed its own control"),
 	},
 }
